@@ -67,6 +67,12 @@ Fixpoint picks {A} (l : list A) : list (A * list A) :=
   | x :: t => (x, t) :: map (fun p => (fst p, x :: snd p)) (picks t)
   end.
 
+Fixpoint existsb_lazy {A} (f : A -> bool) (l : list A) : bool :=
+  match l with
+  | [] => false
+  | a :: t => if f a then true else existsb_lazy f t
+  end.
+
 Fixpoint perms {A} (l : list A) (fuel : nat) : list (list A) :=
   match fuel with
   | O => [[]]
@@ -125,16 +131,21 @@ Section Hist.
   Definition minimal (o : oprec Op Reply) (rest : list (oprec Op Reply)) : bool :=
     forallb (fun p => negb (rt_beforeb p o)) rest.
 
+  (* [vm_compute] evaluates arguments first, so [&&], [||] and [existsb] would explore the
+     whole tree; [if] and this [existsb_lazy] stop at the first success / first failure *)
   Fixpoint lin_search (fuel : nat) (s : S) (todo : list (oprec Op Reply)) : bool :=
     match todo with
     | [] => true
     | _ => match fuel with
            | O => false
            | Datatypes.S f =>
-               existsb (fun p => minimal (fst p) (snd p) &&
-                                 rep_eqb (snd (step s (o_op (fst p)))) (o_rep (fst p)) &&
-                                 lin_search f (fst (step s (o_op (fst p)))) (snd p))
-                       (picks todo)
+               existsb_lazy (fun p =>
+                   if minimal (fst p) (snd p) then
+                     if rep_eqb (snd (step s (o_op (fst p)))) (o_rep (fst p)) then
+                       lin_search f (fst (step s (o_op (fst p)))) (snd p)
+                     else false
+                   else false)
+                 (picks todo)
            end
     end.
   Definition lin_check_gen (init : S) (h : list (oprec Op Reply)) : bool :=
